@@ -2,6 +2,7 @@ package main
 
 import (
 	"fmt"
+	"go/ast"
 	"go/types"
 	"strings"
 
@@ -103,6 +104,20 @@ func (f *Frame) call(b *ssa.BasicBlock, st *State, x *ssa.Call, cc *ssa.CallComm
 	for _, a := range cc.Args {
 		args = append(args, f.val(a))
 	}
+	// sort.Slice and friends: permute the elements of the slice argument, nothing else (the
+	// comparison callback is assumed to be free of side effects)
+	if callee, ok := cc.Value.(*ssa.Function); ok {
+		switch fullName(callee) {
+		case "sort.Slice", "sort.SliceStable":
+			if mi, ok := cc.Args[0].(*ssa.MakeInterface); ok {
+				if sl, ok := mi.X.Type().Underlying().(*types.Slice); ok {
+					c.note("sort.Slice/SliceStable: permutes the elements of its slice argument only; the less callback is assumed side-effect free (trusted)")
+					f.havocElems(b, st, sl.Elem(), f.val(mi.X))
+					return Val{}
+				}
+			}
+		}
+	}
 	switch callee := cc.Value.(type) {
 	case *ssa.Builtin:
 		return f.builtin(b, st, callee.Name(), cc, args, rt, instr)
@@ -132,6 +147,7 @@ func (f *Frame) staticCall(b *ssa.BasicBlock, st *State, fn *ssa.Function, args 
 	tr := f.tr
 	c := tr.c
 	fname := fullName(fn)
+	f.callsiteChecks(b, st, fn, fname, args, instr)
 	// 1. engine models
 	if v, ok := f.modelCall(b, st, fn, fname, args, rt, name, instr); ok {
 		return v
@@ -299,6 +315,9 @@ func (f *Frame) contractCall(b *ssa.BasicBlock, st *State, ct *Contract, args []
 		resVals = []Val{res}
 	}
 	for _, cl := range ct.Ensures {
+		if tr.topC != nil && tr.topC.CalleeClassesOnly && cl.Class == "" && len(ct.ClassNames()) > 0 {
+			continue
+		}
 		env := tr.contractEnv(ct, cl.Params, append(append([]Val{}, args...), resVals...), st, pre)
 		env.havocked = havocked
 		st.guard = and(st.guard, tr.specBool(cl, env))
@@ -786,4 +805,41 @@ func (f *Frame) dispatch(b *ssa.BasicBlock, st *State, cv Val, args []Val, rt ty
 		return out[0]
 	}
 	return Val{tup: out}
+}
+
+// callsiteChecks: //@ callsite assertions of the function under contract at this call
+func (f *Frame) callsiteChecks(b *ssa.BasicBlock, st *State, fn *ssa.Function, fname string, args []Val, instr ssa.Instruction) {
+	tr := f.tr
+	c := tr.c
+	if f.depth != 0 || f.contract == nil || instr == nil || len(f.contract.Callsites) == 0 {
+		return
+	}
+	for _, cs := range f.contract.Callsites {
+		if !(cs.Callee == fn.Name() || strings.HasSuffix(fname, "."+cs.Callee) || fname == cs.Callee || strings.HasSuffix(fname, ")."+cs.Callee)) {
+			continue
+		}
+		pkg := tr.l.ByPath[f.fn.Pkg.Pkg.Path()]
+		if pkg == nil {
+			continue
+		}
+		e, err := parseSugared(cs.Text)
+		if err != nil {
+			c.unsupp("%s:%d: %v", cs.File, cs.Line, err)
+			continue
+		}
+		info := &types.Info{Types: map[ast.Expr]types.TypeAndValue{}, Uses: map[*ast.Ident]types.Object{}, Defs: map[*ast.Ident]types.Object{},
+			Selections: map[*ast.SelectorExpr]*types.Selection{}, Instances: map[*ast.Ident]types.Instance{}}
+		if err := types.CheckExpr(tr.l.Prog.Fset, pkg.Types, instr.Pos(), e, info); err != nil {
+			c.unsupp("%s:%d: callsite clause does not type-check: %v", cs.File, cs.Line, err)
+			continue
+		}
+		env := f.nameEnv(b, instr, st)
+		env.info = info
+		env.callArgs = args
+		g := env.expr(e).t
+		if tr.safety {
+			c.addObl(&Obligation{Name: fmt.Sprintf("%s#callsite.%s", tr.oblPrefix, cs.Callee), Kind: "call.pre", Guard: st.guard, Goal: g, Pos: cs.Text, Func: tr.oblPrefix})
+		}
+		st.guard = c.defineBool("g_callsite", and(st.guard, g))
+	}
 }
